@@ -613,3 +613,27 @@ Theorem rejected_noop_pre002_refuted :
   bal (fst r) 2%N = bal s 2%N - tx_fee env_pre002 - ten_tokens /\
   wealth [1%N; 2%N] [1%N; 2%N] (fst r) = wealth [1%N; 2%N] [1%N; 2%N] s - ten_tokens.
 Proof. vm_compute. repeat split; reflexivity. Qed.
+
+(* ---------- RemoveMiner's second branch: a contract-owned miner that takes everything out is KEPT, aborted, stake 0 ---------- *)
+Theorem refund_all_contract_kept : forall e h s src id k sl,
+  get_miner s id = Some (k, sl) -> s_acct sl = src -> contract e src = true ->
+  let r := execute e h (TRefund src true (Some MAXU64) id) s in
+  snd r = ROk /\
+  cur (fst r) k id = {| s_info := s_info sl; s_stake := 0%N; s_acct := s_acct sl; s_stat := 1%N |} /\
+  pend (fst r) = (refund_height e k h, src, tok (s_stake sl)) :: pend s.
+Proof.
+  intros e h s src id k sl Hg Ha Hc. cbn [execute negb]. rewrite Hg. rewrite <- Ha, N.eqb_refl. cbn [negb].
+  rewrite N.eqb_refl. rewrite N.ltb_irrefl. rewrite N.sub_diag.
+  assert (Hm : (0 <? min_stake k)%N = true) by (unfold min_stake, proposer_stake, validator_stake; destruct (N.eqb k 1); reflexivity).
+  rewrite Hm. unfold remove_miner. rewrite N.eqb_refl, Ha, Hc. cbn [andb negb fst snd cur pend set_cur].
+  rewrite updr_same. repeat split; reflexivity.
+Qed.
+
+(* a second "refund everything" on that record releases nothing *)
+Corollary refund_all_again_books_zero : forall e h s src id k sl,
+  get_miner s id = Some (k, sl) -> s_acct sl = src -> contract e src = true -> s_stake sl = 0%N ->
+  pend (fst (execute e h (TRefund src true (Some MAXU64) id) s)) = (refund_height e k h, src, 0) :: pend s.
+Proof.
+  intros e h s src id k sl Hg Ha Hc Hz. destruct (refund_all_contract_kept e h s src id k sl Hg Ha Hc) as (_ & _ & Hp).
+  rewrite Hp, Hz. reflexivity.
+Qed.
